@@ -436,7 +436,9 @@ def run(ctx, P):
     n = f4.check_rename_taint(ctx, P, "C16h", only=lambda s: s.kind == "TXT")
     ctx.floor("C16h.F4.rename-args", n, 2, "TXT record constructors with a renamable name")
     clause_f(ctx, P)
-    clause_a(ctx, P)
+    R = P      # (P.raw is the program as extracted; the numeric engine also runs on the normalised one)
+    R.repo = P.repo
+    clause_a(ctx, R)
     clause_b(ctx, P)
     clause_c(ctx, P)
     clause_d(ctx, P)
